@@ -12,6 +12,21 @@ ENG = {
 
 # id: (engine, category, technique, level text, level note, design ref)
 CHECKS = {
+ "C04": ("E3", "model_checking",
+   "exhaustive enumeration of leaf subjects from an attribute grammar (mandatory C/ST/O present or absent x optional subsets, duplicate / multi-valued / unknown-OID / escaped-value shapes) x ~45 identity lists derived from each subject x format on the real verifier; structural subset oracle on the generator's attribute lists",
+   "One certificate and signature per subject; every derived identity list (permutations, subsets, supersets, near misses, CA subjects, unknown prefixes, wildcard) is verified by the real verifier with the trust anchor present, so identity alone decides authenticity; pass/fail is compared with a subset relation on the generator's AST (equivalence for clean subjects, implication for odd shapes).",
+   "Trusted: the generator's AST and the subset model in harness/c04; identity lists marked (extension) are recorded, not judged.",
+   "DESIGN.md section 5 C04"),
+ "C10": ("E3", "model_checking",
+   "complete enumeration of the finite quantifier: listings {valid, invalid, nil-outcome, unfetchable}^k (k<=5 quick, <=6 thorough) x all pagings (compositions, empty pages) x 9 limits x 5 reference kinds x skip/non-skip, driving the real notation.Verify loop through a logging mock repository and scripted / real verifier; reference loop model",
+   "Every listing, paging, limit and reference kind of the quantifier is run through the real notation.Verify; verdict, returned descriptor and outcomes, and the repository/verifier call logs are compared with the reference loop of DESIGN.md appendix A.3.",
+   "Trusted: the reference loop in harness/c10, the mock repository; listings longer than 6 are outside the bound.",
+   "DESIGN.md section 5 C10, appendix A.3"),
+ "C19": ("E2", "model_checking",
+   "explicit-state search over push histories (all orders to depth 4 quick / 5 thorough on the memory store, 3/4 on the on-disk OCI layout incl. re-opening, plus a digest-only 'loose' graph store) with canonical state = multiset of manifests per subject, reference model compared after every operation; exhaustive hostile-manifest enumeration with a fetch-logging GraphTarget",
+   "Each transition is a real PushSignature or a foreign referrer pushed underneath the API; after every operation ListSignatures/FetchSignatureBlob for every subject are compared with the model map subject -> multiset(media type, bytes, annotations). Hostile manifests must be refused before any blob fetch.",
+   "Trusted: the map model in harness/c19; oras-go stores as the substrate. The frontier beyond depth 5 is not exhaustive and reported as such.",
+   "DESIGN.md section 5 C19"),
  "C03": ("E3", "model_checking",
    "exhaustive enumeration of certificate placements into the six named stores (<= 2 populated) x every store list of length 1..3 (quick 1..2) x second/wildcard statement listing the other stores x scheme x format x chain shape, on the real verifier over the real on-disk trust store behind a logging decorator; set-membership reference model + call-log clauses",
    "Every case is one real verifier.Verify over real trust-store directories; the authenticity result and the (type, name) sequence of GetCertificates calls are compared with the membership model (listed stores of the scheme's type, all must load, some chain certificate byte-equal to a stored one).",
